@@ -81,6 +81,19 @@ DECREF_ASSIGNS_G(1, *item_ref)
 DECREF_FREES(*item_ref)
 __CPROVER_ensures(OLD((*item_ref)->refcount) > 1 ? *item_ref == OLD(*item_ref) : *item_ref == NULL);
 
+/* Induction-hypothesis variant for a parent that releases a stored element (cbor_array_replace): the
+ * element's node header is valid; whatever else its release touches lies inside the element's own subtree,
+ * which the parent never accesses (hereditary validity, A1) - so only the header and the ghosts are in the
+ * frame.  Used with --replace-call-with-contract cbor_intermediate_decref/cbor_intermediate_decref__child. */
+void cbor_intermediate_decref__child(cbor_item_t *item)
+__CPROVER_requires(ALLOC_MODEL_BOUND && ITEM_RW(item) && item->refcount >= 1 && HEAP_BLOCK(item))
+__CPROVER_assigns(ALLOC_GHOSTS, item->refcount)
+__CPROVER_frees(item->refcount == 1 : item)
+__CPROVER_ensures(OLD(item->refcount) > 1 ==>
+                  (item->refcount == OLD(item->refcount) - 1 && g_live == OLD(g_live) && g_free_calls == OLD(g_free_calls)))
+__CPROVER_ensures(OLD(item->refcount) == 1 ==> g_free_calls > OLD(g_free_calls))
+__CPROVER_ensures(g_malloc_calls == OLD(g_malloc_calls) && g_realloc_calls == OLD(g_realloc_calls));
+
 void cbor_intermediate_decref(cbor_item_t *item)
 DECREF_CONTRACT(&item, item)
 __CPROVER_requires(HEAP_BLOCK(item) && DATA_FREEABLE(item))
